@@ -554,7 +554,10 @@ pub fn cases(tier: Tier) -> Vec<Case> {
     let nn = normals().len();
     for name in CLOSED.iter().chain(OPEN.iter()) {
         for pose in 0..5 {
-            if tier == Tier::Quick && (pose + seed() as usize) % 5 >= 3 {
+            // (the quick tier rotates through the poses with the seed, but always takes the boxes in the pose that
+            // lies a kilometre from the origin: tolerances tied to the position rather than the size show there)
+            let far_box = pose == 3 && name.starts_with("box");
+            if tier == Tier::Quick && (pose + seed() as usize) % 5 >= 3 && !far_box {
                 continue;
             }
             for normal in 0..nn {
